@@ -144,7 +144,8 @@ def skeleton_typestate(ctx):
         if isinstance(n_, ast.If) and 'keyword == "text"' in src(n_.test).replace("'", '"'):
             app = [c for c in ast.walk(n_) if isinstance(c, ast.Call) and dotted(c.func) == "self.append_node"]
             rets = [r for r in ast.walk(n_) if isinstance(r, ast.Return)]
-            ok = bool(app) and all(src(c.args[0]) == "parsetree.Text" for c in app) and any("match_tag_end" in src(r.value) for r in rets if r.value is not None)
+            closes = any("match_tag_end" in src(r.value) for r in rets if r.value is not None) or any(isinstance(c, ast.Call) and dotted(c.func) == "self.tag.pop" for c in ast.walk(n_))
+            ok = bool(app) and all(src(c.args[0]) == "parsetree.Text" for c in app) and closes
     ctx.check(ok, "texttag-children-text-only", db.where(lx), "the body of <%text> is no longer lexed as a single Text node followed by its end tag: the write in visitTextTag's finally could emit a partial buffer", "<%text> body is one Text node (cannot raise)")
 
 
